@@ -359,7 +359,8 @@ Lemma dispatch_discs c m v w :
   discs (re (dispatch c m v w)) = [] \/
   (discs (re (dispatch c m v w)) = [tt] /\ ~ dead w /\ dead (rw (dispatch c m v w))).
 Proof.
-  unfold dispatch. destruct (mkind m); try (left; destruct v; reflexivity); try (left; reflexivity).
+  unfold dispatch. destruct (mkind m); try (left; reflexivity).
+  - left. rewrite deliver_branch_unfold. cbn [re]. destruct (v && seq_is_expected m w); reflexivity.
   - left. apply discs_nil. apply process_resend_allev; cbn; auto.
   - left. apply discs_nil. apply process_testrequest_allev; cbn; auto.
   - unfold process_heartbeat. rewrite bind_unfold. cbn [getw rv rw re app].
@@ -367,6 +368,7 @@ Proof.
     destruct (negb _); [|left; reflexivity].
     destruct (disconnect_discs c ST_DISC_BROKEN (Some R_TESTID) w) as [H|[H [Ha [Hd _]]]]; [stlia|left; exact H|].
     right. auto.
+  - left. rewrite deliver_branch_unfold. cbn [re]. destruct (v && seq_is_expected m w); reflexivity.
 Qed.
 
 Lemma finalize_not_disc m now : allev not_disc (finalize m now).
